@@ -39,20 +39,20 @@ func (s *vhSigner) Sign(rand io.Reader, digest []byte, opts crypto.SignerOpts) (
 // vhKeyCfg: the four ways of configuring keys (F = deprecated field, O = setter override; e = encryption
 // / default signing key, s = explicit signing key) and the selections DESIGN B.8 prescribes.
 type vhKeyCfg struct {
-	Fe, Fs, Oe, Os     bool
-	FsFail             bool // the explicit signing key store (field) fails to deliver its key pair
-	keyA, keyB         *rsa.PrivateKey
-	sigC, sigD         *vhSigner
-	certA, certB       []byte
-	certC, certD       []byte
-	signFieldKey       *rsa.PrivateKey // expected signing key when it comes from a field key store
-	signSigner         crypto.Signer   // expected signing key when it comes from a setter
-	signCert           []byte
-	haveSign           bool
-	decFieldKey        *rsa.PrivateKey
-	decSigner          crypto.Signer
-	decCert            []byte
-	haveDec            bool
+	Fe, Fs, Oe, Os bool
+	FsFail         bool // the explicit signing key store (field) fails to deliver its key pair
+	keyA, keyB     *rsa.PrivateKey
+	sigC, sigD     *vhSigner
+	certA, certB   []byte
+	certC, certD   []byte
+	signFieldKey   *rsa.PrivateKey // expected signing key when it comes from a field key store
+	signSigner     crypto.Signer   // expected signing key when it comes from a setter
+	signCert       []byte
+	haveSign       bool
+	decFieldKey    *rsa.PrivateKey
+	decSigner      crypto.Signer
+	decCert        []byte
+	haveDec        bool
 }
 
 func vhConfigureKeys(sp *SAMLServiceProvider, tlsField bool) *vhKeyCfg {
